@@ -38,7 +38,7 @@ CLASS_NAMES = ["ASTNode", *[c for c in M.CLASS_NAMES if c != "BombNode"]]
 ALL_FIELDS = sorted({f.name for c in M.TABLE for f in c.fields if c.name != "BombNode"})
 SEQ_OK_FIELDS = sorted({f.name for c in M.TABLE for f in c.fields
                         if c.name != "BombNode" and (f.is_child or f.kind in ("int", "optint", "tint"))})
-REGEXES = ["", ".*", "\\d+", "a", "1", "True", "None", "Color", "\\(", "[ab]+", "x y", "-?\\d", "b", "a b", "ab", "x y$"]
+REGEXES = ["", ".*", "\\d+", "a", "1", "True", "None", "Color", "\\(", "[ab]+", "x y", "-?\\d", "b", "a b", "ab", "x y$", "a b", "x y", "a  b"]
 
 
 def is_node(v: Any) -> bool:
